@@ -261,3 +261,74 @@ _inst_prev4 = install
 def install(w):   # noqa: F811
     _inst_prev4(w)
     install_collect(w)
+
+
+def install_collect_impl(w):
+    import graphql.language.ast as A
+    w.class_aliases["SelectionNode"] = A.SelectionNode
+    w.class_aliases["SelectionSetNode"] = A.SelectionSetNode
+    w.class_aliases["FragmentDefinitionNode"] = A.FragmentDefinitionNode
+    w.alias("FragmentDetails", f"{CF}.FragmentDetails")
+    w.alias("DeferUsage", f"{CF}.DeferUsage")
+    w.shape("SelectionSetNode", selections=("list", "ref:SelectionNode"), kind="str", loc="opaque")
+    w.shape("SelectionNode", name="ref:NameNode", alias="opt:ref:NameNode",
+            selection_set="ref:SelectionSetNode", type_condition="opt:ref:NamedTypeNode",
+            directives=("list", "ref:DirectiveNode"), kind="str", loc="opaque")
+    w.shape("FragmentDefinitionNode", selection_set="ref:SelectionSetNode",
+            type_condition="opt:ref:NamedTypeNode", name="ref:NameNode", kind="str", loc="opaque")
+    w.shape("FragmentDetails", definition="ref:FragmentDefinitionNode", variable_signatures="dyn")
+    w.shape("DeferUsage", label="opt:str", parent_defer_usage="opt:ref:DeferUsage")
+
+    w.contract(f"{CF}.should_include_node",
+               params={"context": "opaque", "node": "ref:SelectionNode", "variable_values": "opaque",
+                       "fragment_variable_values": "opaque"},
+               returns="bool", ensures=[], raises=["GraphQLError"], assumed=True)
+    w.contract(f"{CF}.get_defer_usage",
+               params={"variable_values": "opaque", "fragment_variable_values": "opaque",
+                       "node": "ref:SelectionNode", "parent_defer_usage": "opaque"},
+               returns="opt:ref:DeferUsage", ensures=[], raises=["GraphQLError"], assumed=True)
+    w.contract("graphql.execution.values.get_fragment_variable_values",
+               params={"fragment_spread_node": "ref:SelectionNode", "fragment_signatures": "dyn",
+                       "variable_values": "opaque", "fragment_variable_values": "opaque",
+                       "hide_suggestions": "bool"},
+               returns="dyn", ensures=[], raises=["GraphQLError"], assumed=True)
+    CTX = ("tuple", "schema", ("omap", "ref:FragmentDetails"), "dyn", "dyn", "ty",
+           ("map", "bool"), "bool", ("list", "dyn"), "bool")
+    w.define("IsFieldSel", "n", "instance_of_ref(n, 'FieldNode')")
+    w.define("IsInlineSel", "n", "instance_of_ref(n, 'InlineFragmentNode')")
+    w.define("IsSpreadSel", "n", "instance_of_ref(n, 'FragmentSpreadNode')")
+    w.class_aliases["FragmentSpreadNode"] = A.FragmentSpreadNode
+    w.class_aliases["InlineFragmentNode"] = A.InlineFragmentNode
+    w.contract(f"{CF}.collect_fields_impl",
+               params={"context": CTX, "selection_set": "ref:SelectionSetNode",
+                       "grouped_field_set": ("mm", "grouped"), "new_defer_usages": ("list", "dyn"),
+                       "defer_usage": "dyn", "fragment_variable_values": "dyn"},
+               requires=["kind_is(context[4], 'OBJECT')"],
+               # 'recursed' counts the recursive calls made by one activation (per-activation ghost)
+               ensures=[], raises=["GraphQLError"], ghost_calls=["recursed"],
+               ghost_modifies=["grouped"], modifies=[],
+               loops={1: {"step_post": [
+                   # CollectFields: a field that is not skipped is added to its group, once
+                   "implies(IsFieldSel(selection), ghost('grouped') == at_iter_start(ghost('grouped')) + 1"
+                   " and ghost('recursed') == at_iter_start(ghost('recursed')))",
+                   # a fragment is entered (exactly once) only if its type condition applies to the
+                   # runtime type
+                   "implies(IsInlineSel(selection), ghost('recursed') == at_iter_start(ghost('recursed')) + 1"
+                   " and (selection.type_condition is None"
+                   " or cond_applies(schema, selection.type_condition, runtime_type)))",
+                   "implies(IsSpreadSel(selection) and not IsInlineSel(selection) and not IsFieldSel(selection),"
+                   " ghost('recursed') == at_iter_start(ghost('recursed')) + 1"
+                   " and (fragment.definition.type_condition is None"
+                   " or cond_applies(schema, fragment.definition.type_condition, runtime_type)))",
+               ]}},
+               props={"C02"})
+    # does_fragment_condition_match is called with inline fragments and fragment definitions
+    w.shape("InlineFragmentNode", type_condition="opt:ref:NamedTypeNode")
+
+
+_inst_prev5 = install
+
+
+def install(w):   # noqa: F811
+    _inst_prev5(w)
+    install_collect_impl(w)
